@@ -113,13 +113,16 @@ Binds(conds) == BindsSeq(Positional(conds) \o KwSorted(conds))
 CmpOps == {"=", "!=", "<", ">", "<=", ">="}
 Lists == { <<>> } \cup { <<v>> : v \in Vals } \cup
          (IF Rich THEN { <<v, w>> : v \in Vals, w \in { Null, IntV(1), StrV(<<"a">>) } } ELSE { <<IntV(0), Null>>, <<StrV(<<"a">>), IntV(1)>> })
+(* a list longer than any limit a driver or the code might split it at: 1, 2, ..., 501 (holds a value of the table) *)
+LongList == [i \in 1 .. 501 |-> IntV(i)]
 Simple ==      { [k |-> "cmp", f |-> f, op |-> op, v |-> v] : f \in Fields, op \in CmpOps, v \in Vals }
+          \cup { [k |-> "in", f |-> f, neg |-> n, vs |-> LongList] : f \in Fields, n \in BOOLEAN }
           \cup { [k |-> "in", f |-> f, neg |-> n, vs |-> vs] : f \in Fields, n \in BOOLEAN, vs \in Lists }
           \cup { [k |-> "isnull", f |-> f, neg |-> n] : f \in Fields, n \in BOOLEAN }
           \cup { [k |-> "like", f |-> f, neg |-> n, p |-> p] : f \in Fields, n \in BOOLEAN, p \in Patterns }
 OrPool == { [k |-> "cmp", f |-> "a", op |-> "=", v |-> IntV(1)], [k |-> "cmp", f |-> "b", op |-> "<", v |-> StrV(<<"a">>)],
             [k |-> "cmp", f |-> "b", op |-> "=", v |-> Null], [k |-> "in", f |-> "b", neg |-> TRUE, vs |-> <<IntV(0), Null>>],
-            [k |-> "in", f |-> "a", neg |-> FALSE, vs |-> <<>>], [k |-> "like", f |-> "a", neg |-> FALSE, p |-> <<"%", "q">>],
+            [k |-> "in", f |-> "a", neg |-> FALSE, vs |-> <<>>], [k |-> "in", f |-> "b", neg |-> TRUE, vs |-> <<>>], [k |-> "like", f |-> "a", neg |-> FALSE, p |-> <<"%", "q">>],
             [k |-> "isnull", f |-> "a", neg |-> TRUE], [k |-> "cmp", f |-> "a", op |-> "!=", v |-> StrV(<<"o", "'", "q">>)] }
 Statics == { [k |-> "static", form |-> "colcol"], [k |-> "static", form |-> "lit"] }
 Ors == { [k |-> "or", cs |-> <<>>] } \cup { [k |-> "or", cs |-> <<c>>] : c \in OrPool }
